@@ -526,4 +526,297 @@ theorem view_inv {lower : Bytes → Bytes} {cv : Conv} {st : State} (hI : Inv lo
   intro ix hix
   exact indexInv_congr lower ix (fun i path => (getProp_view cv hp hb i path).symm) (hI.idx ix hix)
 
+/-! ### a query means the same on node ids (C02's `sat`) and on documents (`docSat`) -/
+
+theorem kindAt_schema (cv : Conv) (st : State) (path : List String) :
+    kindAt st.schema path = ((st.view cv).index path).map (·.kind) := by
+  unfold kindAt State.schema C02.St.index State.view
+  simp only [List.find?_map, Option.map_map]
+  rfl
+
+theorem index_kind_iff (cv : Conv) (st : State) (path : List String) (k : C02.Kind) :
+    (∃ kv, (st.view cv).index path = some ⟨path, k, kv⟩) ↔ kindAt st.schema path = some k := by
+  rw [kindAt_schema cv]
+  constructor
+  · rintro ⟨kv, h⟩; rw [h]; rfl
+  · intro h
+    cases hix : (st.view cv).index path with
+    | none => rw [hix] at h; cases h
+    | some ix =>
+      rw [hix] at h
+      obtain ⟨p, kind, kv⟩ := ix
+      have hp := (C02.index_some hix).2
+      simp only [Option.map_some, Option.some.injEq] at h hp
+      subst h; subst hp
+      exact ⟨kv, rfl⟩
+
+section sat
+variable {lower : Bytes → Bytes} {cv : Conv} {st : State}
+
+theorem idOf_iff (hI : Inv lower cv st) {i : C02.Id} {u : Uuid} (hl : C01.AL.get st.shard.pts.nI i.toNat = some u) (u' : Uuid) :
+    C02.idOf (st.view cv).pts u' = some i ↔ u' = u := by
+  have hp := hI.store.pts
+  show C02.idOf (viewPts cv st.shard.pts) u' = some i ↔ _
+  rw [idOf_view]
+  constructor
+  · intro h
+    cases hg : C01.AL.get st.shard.pts.pI u' with
+    | none => rw [hg] at h; cases h
+    | some n =>
+      rw [hg] at h
+      simp only [Option.map_some, Option.some.injEq] at h
+      have hn := (hp.bij u' n).mp hg
+      have : i.toNat = n := by rw [← h]; exact nid_toNat (hI.liveBound n u' hn)
+      rw [this, hn] at hl
+      exact Option.some.inj hl
+  · rintro rfl
+    rw [(hp.bij u' i.toNat).mpr hl]
+    simp [nid_of_toNat]
+
+theorem leaf_sat_iff (hI : Inv lower cv st) (l : C02.Leaf) {i : C02.Id} {u : Uuid}
+    (hl : C01.AL.get st.shard.pts.nI i.toNat = some u) :
+    l.sat lower (st.view cv) i ↔ leafSat lower st.schema l u (docAt cv st.shard.pts i) := by
+  have hp := hI.store.pts
+  have hb := hI.liveBound
+  have gp : ∀ path, C02.getProp (C02.docOf (st.view cv).pts i) path = C02.getProp (docAt cv st.shard.pts i) path :=
+    fun path => getProp_view cv hp hb i path
+  cases l with
+  | str path op v e =>
+    simp only [C02.Leaf.sat, leafSat, C02.strVals, gp]
+    constructor
+    · rintro ⟨cs, kv, hix, h⟩; exact ⟨cs, (index_kind_iff cv st path _).1 ⟨kv, hix⟩, h⟩
+    · rintro ⟨cs, hk, h⟩
+      obtain ⟨kv, hix⟩ := (index_kind_iff cv st path _).2 hk
+      exact ⟨cs, kv, hix, h⟩
+  | strArr path all vs =>
+    simp only [C02.Leaf.sat, leafSat, C02.arrVals, gp]
+    constructor
+    · rintro ⟨cs, kv, hix, h⟩; exact ⟨cs, (index_kind_iff cv st path _).1 ⟨kv, hix⟩, h⟩
+    · rintro ⟨cs, hk, h⟩
+      obtain ⟨kv, hix⟩ := (index_kind_iff cv st path _).2 hk
+      exact ⟨cs, kv, hix, h⟩
+  | int path op v e =>
+    simp only [C02.Leaf.sat, leafSat, C02.intVals, gp]
+    constructor
+    · rintro ⟨kv, hix, h⟩; exact ⟨(index_kind_iff cv st path _).1 ⟨kv, hix⟩, h⟩
+    · rintro ⟨hk, h⟩
+      obtain ⟨kv, hix⟩ := (index_kind_iff cv st path _).2 hk
+      exact ⟨kv, hix, h⟩
+  | flt path op v e =>
+    simp only [C02.Leaf.sat, leafSat, C02.fltVals, gp]
+    constructor
+    · rintro ⟨kv, hix, h⟩; exact ⟨(index_kind_iff cv st path _).1 ⟨kv, hix⟩, h⟩
+    · rintro ⟨hk, h⟩
+      obtain ⟨kv, hix⟩ := (index_kind_iff cv st path _).2 hk
+      exact ⟨kv, hix, h⟩
+  | idEq u' =>
+    simp only [C02.Leaf.sat, leafSat]
+    exact idOf_iff hI hl u'
+  | idAny us =>
+    simp only [C02.Leaf.sat, leafSat]
+    constructor
+    · rintro ⟨u', hu', h⟩; rw [(idOf_iff hI hl u').1 h] at hu'; exact hu'
+    · intro h; exact ⟨u, h, (idOf_iff hI hl u).2 rfl⟩
+
+mutual
+theorem sat_iff (hI : Inv lower cv st) {i : C02.Id} {u : Uuid} (hl : C01.AL.get st.shard.pts.nI i.toNat = some u) :
+    ∀ (q : C02.Query), q.sat lower (st.view cv) i ↔ docSat lower st.schema q u (docAt cv st.shard.pts i)
+  | .leaf l => by simp only [C02.Query.sat, docSat]; exact leaf_sat_iff hI l hl
+  | .and qs => by simp only [C02.Query.sat, docSat]; exact (satL_iff hI hl qs).1
+  | .or qs => by simp only [C02.Query.sat, docSat]; exact (satL_iff hI hl qs).2
+theorem satL_iff (hI : Inv lower cv st) {i : C02.Id} {u : Uuid} (hl : C01.AL.get st.shard.pts.nI i.toNat = some u) :
+    ∀ (qs : C02.QList),
+      (qs.satAll lower (st.view cv) i ↔ docSatAll lower st.schema qs u (docAt cv st.shard.pts i)) ∧
+      (qs.satAny lower (st.view cv) i ↔ docSatAny lower st.schema qs u (docAt cv st.shard.pts i))
+  | .nil => by simp [C02.QList.satAll, C02.QList.satAny, docSatAll, docSatAny]
+  | .cons q qs => by
+    have h1 := sat_iff hI hl q
+    have h2 := satL_iff hI hl qs
+    simp only [C02.QList.satAll, C02.QList.satAny, docSatAll, docSatAny, h1, h2.1, h2.2, and_self]
+end
+
+/-- whatever satisfies a well-formed query is a live node id -/
+theorem live_of_sat (hI : Inv lower cv st) (q : C02.Query) (hwf : q.wf (st.view cv) = true) (i : C02.Id)
+    (h : q.sat lower (st.view cv) i) : ∃ u, C01.AL.get st.shard.pts.nI i.toNat = some u := by
+  obtain ⟨pt, hpt, hid⟩ := C02.Query.sat_live lower q hwf i h
+  obtain ⟨e, he, rfl⟩ := List.mem_map.1 hpt
+  have hp := hI.store.pts
+  have ge := hp.mem_pI he
+  have le := (hp.bij e.1 e.2).mp ge
+  have h2 : nid e.2 = i := hid
+  have : i.toNat = e.2 := by rw [← h2]; exact nid_toNat (hI.liveBound e.2 e.1 le)
+  exact ⟨e.1, by rw [this]; exact le⟩
+
+/-- the points of the reference map that satisfy the query are exactly the uuids of the node ids that do -/
+theorem specMatches_iff (hI : Inv lower cv st) (q : C02.Query) (u : Uuid) :
+    specMatches lower cv st.schema (C01.abs st.shard) q u ↔
+      ∃ i : C02.Id, C01.AL.get st.shard.pts.nI i.toNat = some u ∧ q.sat lower (st.view cv) i := by
+  have hp := hI.store.pts
+  unfold specMatches
+  simp only [C01.abs, C01.get_absP]
+  constructor
+  · rintro ⟨d, hd, hs⟩
+    cases hg : C01.AL.get st.shard.pts.pI u with
+    | none => rw [hg] at hd; cases hd
+    | some n =>
+      rw [hg] at hd
+      simp only [Option.map_some, Option.some.injEq] at hd
+      have hn := (hp.bij u n).mp hg
+      have hlt := hI.liveBound n u hn
+      have hl : C01.AL.get st.shard.pts.nI (nid n).toNat = some u := by rw [nid_toNat hlt]; exact hn
+      refine ⟨nid n, hl, (sat_iff hI hl q).2 ?_⟩
+      rw [docAt_nid cv _ hlt, hd]; exact hs
+  · rintro ⟨i, hl, hs⟩
+    have hg := (hp.bij u i.toNat).mpr hl
+    refine ⟨C01.AL.get st.shard.pts.nD i.toNat, by rw [hg]; rfl, ?_⟩
+    have := (sat_iff hI hl q).1 hs
+    exact this
+
+end sat
+
+/-! ### a filter query tree through `searchParallel` (C06) is C02's `eval` -/
+
+section tree
+variable (lower : Bytes → Bytes) (v : C02.St)
+
+mutual
+theorem inSet_qtree : ∀ (q : C02.Query) (i : C02.Id),
+    (C06.inSetB (qtree lower v q) i.toNat = true ↔ i ∈ C02.eval lower v q)
+  | .leaf l, i => by
+    simp only [qtree, C06.inSetB, C02.eval, decide_eq_true_eq, List.mem_map]
+    constructor
+    · rintro ⟨j, hj, e⟩; rw [← BitVec.eq_of_toNat_eq e]; exact hj
+    · intro h; exact ⟨i, h, rfl⟩
+  | .and qs, i => by
+    have h := (inSet_qforest qs i).2
+    cases qs with
+    | nil => simp [qtree, qforest, C06.inSetB, C06.QForest.isNil, C02.eval, C02.evalL, C02.interAll]
+    | cons q qs =>
+      simp only [qtree, C06.inSetB, C02.eval, Bool.false_eq_true, if_false, Bool.and_eq_true, Bool.not_eq_true']
+      rw [C02.mem_interAll _ (by simp [C02.evalL]), ← h]
+      simp [qforest, C06.QForest.isNil]
+  | .or qs, i => by
+    have h := (inSet_qforest qs i).1
+    simp only [qtree, C06.inSetB, C02.eval, if_true]
+    rw [C02.mem_unionAll, ← h]
+theorem inSet_qforest : ∀ (qs : C02.QList) (i : C02.Id),
+    (C06.anySetB (qforest lower v qs) i.toNat = true ↔ ∃ s ∈ C02.evalL lower v qs, i ∈ s) ∧
+    (C06.allSetB (qforest lower v qs) i.toNat = true ↔ ∀ s ∈ C02.evalL lower v qs, i ∈ s)
+  | .nil, i => by simp [qforest, C06.anySetB, C06.allSetB, C02.evalL]
+  | .cons q qs, i => by
+    have h1 := inSet_qtree q i
+    have h2 := inSet_qforest qs i
+    simp only [qforest, C06.anySetB, C06.allSetB, C02.evalL, Bool.or_eq_true, Bool.and_eq_true, h1, h2.1, h2.2,
+      List.mem_cons, exists_eq_or_imp, forall_eq_or_imp, and_self]
+end
+
+mutual
+/-- every node id a filter tree returns is a `uint64` -/
+theorem bound_qtree : ∀ (q : C02.Query) (n : Nat), C06.inSetB (qtree lower v q) n = true → n < 2 ^ 64
+  | .leaf l, n => by
+    simp only [qtree, C06.inSetB, decide_eq_true_eq, List.mem_map]
+    rintro ⟨j, _, rfl⟩; exact j.isLt
+  | .and qs, n => by
+    have h := (bound_qforest qs n).2
+    simp only [qtree, C06.inSetB, Bool.false_eq_true, if_false, Bool.and_eq_true, Bool.not_eq_true']
+    rintro ⟨h1, h2⟩; exact h h1 h2
+  | .or qs, n => by
+    have h := (bound_qforest qs n).1
+    simp only [qtree, C06.inSetB, if_true]
+    exact h
+theorem bound_qforest : ∀ (qs : C02.QList) (n : Nat),
+    (C06.anySetB (qforest lower v qs) n = true → n < 2 ^ 64) ∧
+    ((qforest lower v qs).isNil = false → C06.allSetB (qforest lower v qs) n = true → n < 2 ^ 64)
+  | .nil, n => by simp [qforest, C06.anySetB, C06.QForest.isNil]
+  | .cons q qs, n => by
+    have h1 := bound_qtree q n
+    have h2 := bound_qforest qs n
+    simp only [qforest, C06.anySetB, C06.allSetB, Bool.or_eq_true, Bool.and_eq_true]
+    exact ⟨fun h => h.elim h1 h2.1, fun _ h => h1 h.1⟩
+end
+
+theorem inSet_iff (q : C02.Query) (n : Nat) :
+    C06.inSetB (qtree lower v q) n = true ↔ ∃ i : C02.Id, i.toNat = n ∧ i ∈ C02.eval lower v q := by
+  constructor
+  · intro h
+    have hb := bound_qtree lower v q n h
+    refine ⟨BitVec.ofNat 64 n, by simp [BitVec.toNat_ofNat]; omega, ?_⟩
+    rw [← inSet_qtree]
+    have : (BitVec.ofNat 64 n).toNat = n := by simp [BitVec.toNat_ofNat]; omega
+    rw [this]; exact h
+  · rintro ⟨i, rfl, hi⟩; exact (inSet_qtree lower v q i).2 hi
+
+mutual
+theorem leavesWF_qtree : ∀ (q : C02.Query), C06.leavesWF (qtree lower v q)
+  | .leaf l => by simp [qtree, C06.leavesWF]
+  | .and qs => by simp only [qtree, C06.leavesWF]; exact forestWF_qforest qs
+  | .or qs => by simp only [qtree, C06.leavesWF]; exact forestWF_qforest qs
+theorem forestWF_qforest : ∀ (qs : C02.QList), C06.forestWF (qforest lower v qs)
+  | .nil => by simp [qforest, C06.forestWF]
+  | .cons q qs => by simp only [qforest, C06.forestWF]; exact ⟨leavesWF_qtree q, forestWF_qforest qs⟩
+end
+
+theorem searchParallel_res_nil (add : Unit → Unit → Unit) (isOr : Bool) (subs : List (C06.SubResult Unit))
+    (h : ∀ s ∈ subs, s.res = []) : (C06.searchParallel add id id isOr subs).res = [] := by
+  have hall : (subs.map (·.res)).flatten = [] := by
+    rw [List.flatten_eq_nil_iff]
+    intro l hl
+    obtain ⟨s, hs, rfl⟩ := List.mem_map.1 hl
+    exact h s hs
+  unfold C06.searchParallel
+  split
+  · rename_i one; exact h one (by simp)
+  · simp [hall]
+
+mutual
+/-- filter leaves rank nothing, so neither does a tree of them -/
+theorem evalTree_res_nil (add : Unit → Unit → Unit) : ∀ (q : C02.Query), (C06.evalTree add id id (qtree lower v q)).res = []
+  | .leaf l => by simp [qtree, C06.evalTree]
+  | .and qs => by
+    simp only [qtree, C06.evalTree]
+    exact searchParallel_res_nil add false _ (evalForest_res_nil add qs)
+  | .or qs => by
+    simp only [qtree, C06.evalTree]
+    exact searchParallel_res_nil add true _ (evalForest_res_nil add qs)
+theorem evalForest_res_nil (add : Unit → Unit → Unit) : ∀ (qs : C02.QList),
+    ∀ s ∈ C06.evalForest add id id (qforest lower v qs), s.res = []
+  | .nil => by simp [qforest, C06.evalForest]
+  | .cons q qs => by
+    simp only [qforest, C06.evalForest, List.mem_cons, forall_eq_or_imp]
+    exact ⟨evalTree_res_nil add q, evalForest_res_nil add qs⟩
+end
+
+end tree
+
+/-! ### counting -/
+
+theorem length_le_of_nodup_subset {α : Type} [DecidableEq α] : ∀ (l m : List α), l.Nodup → (∀ a ∈ l, a ∈ m) →
+    l.length ≤ m.length := by
+  intro l
+  induction l with
+  | nil => intro m _ _; exact Nat.zero_le _
+  | cons a l ih =>
+    intro m hn hs
+    rw [List.nodup_cons] at hn
+    have ha : a ∈ m := hs a (List.mem_cons_self ..)
+    have := ih (m.erase a) hn.2 (fun b hb => by
+      have hne : b ≠ a := fun e => hn.1 (e ▸ hb)
+      exact (List.mem_erase_of_ne hne).2 (hs b (List.mem_cons_of_mem _ hb)))
+    rw [List.length_erase_of_mem ha] at this
+    have hpos : 0 < m.length := List.length_pos_of_mem ha
+    simp only [List.length_cons]
+    omega
+
+theorem length_lt_of_nodup_range {l : List Nat} {N : Nat} (hN : 0 < N) (hn : l.Nodup) (h : ∀ a ∈ l, 0 < a ∧ a < N) :
+    l.length < N := by
+  have h0 : (0 :: l).Nodup := List.nodup_cons.2 ⟨fun h0 => Nat.lt_irrefl 0 (h 0 h0).1, hn⟩
+  have := length_le_of_nodup_subset (0 :: l) (List.range N) h0 (by
+    intro a ha
+    rw [List.mem_range]
+    rcases List.mem_cons.1 ha with rfl | ha
+    · exact hN
+    · exact (h a ha).2)
+  simp only [List.length_cons, List.length_range] at this
+  omega
+
 end Sema.Compose
